@@ -10,7 +10,8 @@ from dimod import BinaryQuadraticModel, DictBQM, Float32BQM, QuadraticModel, Var
 
 import wlib
 from wlib import clist, cnat, cz, cq, cbool, copt, cpair
-from gen import enc_label, dec_label, F, fs, LabelTable, VT, exc_bucket, rand_desc
+from gen import enc_label, F, fs, LabelTable, VT, exc_bucket, rand_desc
+from gen import dec_label as _dec_label
 
 warnings.simplefilter("ignore")
 
@@ -19,6 +20,13 @@ INTS = list(range(0, 9))
 BUCKET = {"ValueError": "BValue", "TypeError": "BType", "KeyError": "BKey", "IndexError": "BIndex"}
 F32_BITS, F64_BITS = 17, 44
 VIEW_FORBIDDEN = {"resize", "lin_array", "dense", "change_vartype", "capture"}
+
+
+def dec_label(j):
+    """JSON -> label; {"np": k} is the numpy integer np.int64(k) (the same variable as the int k)"""
+    if isinstance(j, dict) and "np" in j:
+        return np.int64(j["np"])
+    return _dec_label(j)
 
 
 # ----------------------------------------------------------------------------------------------- generation
@@ -65,7 +73,11 @@ def small_desc(rng, labels, kinds, single):
 def gen_case(rng, tier):
     kind = "qm" if rng.random() < 0.3 else "bqm"
     nlab = rng.randint(2, 7)
-    pool = list(POOL)
+    # a quarter of the histories pass some integer labels as numpy integers (same variables as the ints); those
+    # histories have no tuple labels: `np.int64(4) == ('t', 2)` is an array and the self-loop test `u == v` of
+    # add_quadratic / set_quadratic / get_quadratic then raises (reported, corpus d8)
+    np_mode = rng.random() < 0.25
+    pool = [l for l in POOL if not (np_mode and isinstance(l, tuple))]
     rng.shuffle(pool)
     A = pool[:nlab]
     nsteps = rng.randint(1, 25 if tier == "quick" else 60)
@@ -79,9 +91,10 @@ def gen_case(rng, tier):
     steps = []
 
     def lab(p_present=0.85):
-        if cur and rng.random() < p_present:
-            return enc_label(rng.choice(cur))
-        return enc_label(rng.choice(A))
+        l = enc_label(rng.choice(cur)) if cur and rng.random() < p_present else enc_label(rng.choice(A))
+        if np_mode and isinstance(l, int) and rng.random() < 0.5:
+            return {"np": l}
+        return l
 
     def note(l):
         l = dec_label(l)
@@ -126,7 +139,7 @@ def gen_case(rng, tier):
     def apply_mapping(m):
         mm = {dec_label(a): dec_label(b) for a, b in m}
         new = [mm.get(l, l) for l in cur]
-        if len(set(map(repr, new))) == len(new):
+        if len(set(map(lkey, new))) == len(new):
             cur[:] = new
 
     BQM_OPS = [("add_variable", 4), ("add_linear", 6), ("set_linear", 4), ("add_quadratic", 10), ("set_quadratic", 6),
@@ -241,8 +254,11 @@ def gen_case(rng, tier):
             op = [name, dy(rng)]
         elif name == "resize":
             n = max(0, len(cur) + rng.randint(-2, 2))
+            if rng.random() < 0.1:
+                n = -rng.randint(1, 2)          # must raise ValueError on every back-end and change nothing
             op = [name, min(n, 7)]
-            cur[:] = cur[:n]
+            if n >= 0:
+                cur[:] = cur[:n]
         elif name == "clear":
             op = [name]
             cur[:] = []
@@ -365,8 +381,7 @@ def vector_checks(h, tag, lin, qd, off, strict):
                             return f"{opts}: {(labs[r], labs[c])!r} is not an interaction"
                         if F(x) != qd[k]:
                             return f"{opts}: bias {F(x)} for {(labs[r], labs[c])!r} but quadratic says {qd[k]}"
-                    if F(o) != off and (strict or np.asarray(ld).dtype.kind == 'f'):
-                        # not strict: the python fallback casts the offset to the dtype of the linear vector (reported defect d7)
+                    if F(o) != off:
                         return f"{opts}: offset {F(o)} differs from offset {off}"
     return None
 
@@ -493,9 +508,10 @@ def coq_dump(d, T):
 
 
 def coq_state(desc, T, kind):
-    vs = clist([f"(mkV {cnat(T.idx(l))} {vt} {cq(F(lb))} {cq(F(ub))})" for l, vt, lb, ub in desc["vars"]])
-    lin = clist([cpair(cnat(T.idx(l)), cq(F(b))) for l, b in desc["lin"]])
-    quad = clist([f"({cnat(T.idx(u))}, {cnat(T.idx(v))}, {cq(F(b))})" for u, v, b in desc["quad"]])
+    D = dec_label
+    vs = clist([f"(mkV {cnat(T.idx(D(l)))} {vt} {cq(F(lb))} {cq(F(ub))})" for l, vt, lb, ub in desc["vars"]])
+    lin = clist([cpair(cnat(T.idx(D(l))), cq(F(b))) for l, b in desc["lin"]])
+    quad = clist([f"({cnat(T.idx(D(u)))}, {cnat(T.idx(D(v)))}, {cq(F(b))})" for u, v, b in desc["quad"]])
     k = "None" if kind == "qm" else f"(Some {desc.get('vartype', 'BINARY')})"
     return f"(mkSt {k} {vs} (mkPoly {cq(F(desc['off']))} {lin} {quad}))"
 
